@@ -3,7 +3,7 @@
 Require Import List ZArith Bool.
 Require Import IVP.model.Lit IVP.model.Ops IVP.model.Vec IVP.model.Common IVP.model.SolOut
                IVP.gen.Inline.
-Require IVP.model.Dopri5 IVP.model.Rk23 IVP.model.Rk4 IVP.model.Dop853 IVP.model.Radau IVP.model.Matrix.
+Require IVP.model.Dopri5 IVP.model.Rk23 IVP.model.Rk4 IVP.model.Dop853 IVP.model.Radau IVP.model.Bdf IVP.model.Matrix.
 Import ListNotations.
 Local Open Scope bool_scope.
 
@@ -81,6 +81,7 @@ Section Solve.
     | MRK23 => Rk23.interpolate O
     | MDOP853 => Dop853.interpolate O
     | MRADAU => Radau.interpolate O
+    | MBDF => Bdf.interpolate O
     | _ => Dopri5.interpolate O
     end.
 
@@ -169,7 +170,15 @@ Section Solve.
             | Some r => Some (Radau.r_status r, Radau.r_stats r, Radau.r_log r, Radau.r_cb r, Radau.r_h r, Radau.r_jaclog r)
             | None => None
             end
-        | _ => None
+        | MBDF =>
+            (* o_nstiff = newton_maxiter *)
+            let Pm := Bdf.mkP nmax (o_max_step opt) (o_min_step opt) (N.to_nat (o_nstiff opt)) None (o_first_step opt) in
+            let n := length y0 in
+            match Bdf.solve O Pm (pr_f P) (jac_of P (o_jac_storage opt) n) x0 y0 xend (o_rtol opt) (o_atol opt)
+                            (handler_cb C) (hs_init O C) fuel with
+            | Some r => Some (Bdf.r_status r, Bdf.r_stats r, Bdf.r_log r, Bdf.r_cb r, Bdf.r_h r, Bdf.r_jaclog r)
+            | None => None
+            end
         end in
       match res with
       | None => None
